@@ -505,6 +505,51 @@ fn judge_ctor(case: &Case, l: &mut Local) {
                 l.check("index_of returns the zone of the greatest value not above the query", "", okq, mk, || format!("{:?}.index_of({}) = {:?} expected {:?}", model, q, got, want));
             }
         }
+        "long" => {
+            // long domains and series (sizes around powers of two and beyond a thousand): lookups at every knot, one
+            // ulp either side and between knots, interpolation and slicing against the plain reference
+            l.eval();
+            let n = v[0] as usize;
+            let xs: Vec<f64> = (0..n).map(|i| v[1] + 0.137 * i as f64 + 0.011 * ((i * 7) % 5) as f64).collect();
+            let ys: Vec<f64> = (0..n).map(|i| ((i * 13) % 17) as f64 - 8.0).collect();
+            l.bucket("long domain");
+            let d = match DiscreteDomain::try_from(xs.clone()) {
+                Ok(d) => d,
+                Err(e) => {
+                    l.check("domain from vector accepts exactly finite ascending input", "long", false, mk, || e.to_string());
+                    return;
+                }
+            };
+            let mut ok = d.len() == n;
+            for (k, x) in xs.iter().enumerate() {
+                ok &= d.index_of(*x) == Some(k);
+                ok &= d.index_of(x.next_down()) == if k == 0 { None } else { Some(k - 1) };
+                if k + 1 < n {
+                    ok &= d.index_of(x.next_up()) == Some(k) && d.index_of(0.5 * (x + xs[k + 1])) == Some(k);
+                }
+            }
+            l.check("index_of returns the zone of the greatest value not above the query", "long", ok, mk, || format!("{} values", n));
+            if let Ok(sr) = Series1::try_new(xs.clone(), ys.clone()) {
+                let mut oks = true;
+                for k in 0..n - 1 {
+                    let xm = 0.25 * xs[k] + 0.75 * xs[k + 1];
+                    oks &= sr.interpolate(xs[k]) == ys[k] && (sr.interpolate(xm) - (0.25 * ys[k] + 0.75 * ys[k + 1])).abs() <= 1e-9;
+                }
+                oks &= sr.interpolate(xs[n - 1]) == ys[n - 1];
+                l.check("interpolation: stored values at knots, linear blend between, NaN outside", "long", oks, mk, || format!("{} knots", n));
+                // a slice across most of the series keeps exactly the knots inside plus the two cut points
+                let (a, b) = (0.5 * (xs[1] + xs[2]), 0.5 * (xs[n - 3] + xs[n - 2]));
+                match guarded(|| sr.between(a, b)) {
+                    Ok(sl) => {
+                        let inner = xs.iter().filter(|x| **x > a && **x < b).count();
+                        l.check("slice keeps the knots inside and the exact ends", "long", sl.x.len() == inner + 2 && sl.x[0] == a && sl.x[sl.x.len() - 1] == b, mk, || format!("{} knots: slice has {} (expected {})", n, sl.x.len(), inner + 2));
+                    }
+                    Err(e) => {
+                        l.check("slice returns", "panic", false, mk, || e.clone());
+                    }
+                }
+            }
+        }
         "resample" => {
             l.eval();
             let (x0, span, n) = (v[0], v[1], v[2] as usize);
@@ -605,6 +650,11 @@ pub fn ctor_cases() -> Vec<Case> {
             }
         }
     }
+    for n in [31usize, 32, 33, 255, 256, 257, 1000, 1024, 1025, 4097] {
+        for off in [0.0, -57.3] {
+            out.push(Case { kind: "ctor".into(), state: None, ctor: Some(vec![n as f64, off]), name: "long".into() });
+        }
+    }
     for x0 in [0.0, 1.0, -0.3] {
         for span in [0.1, 0.3, 0.7, 0.9, 1.7, 2.5, 3.1, 4.0] {
             for n in 2..=16 {
@@ -626,11 +676,11 @@ pub fn ctor_cases() -> Vec<Case> {
 
 pub fn run(tier: Tier) -> i32 {
     let mut cx = Ctx::new("C17", tier, "model_checking");
-    cx.rule = "explicit-state search: initial states = every series over ascending (non-strict) abscissae from {0,1,1,2.5,4} (1..4 knots) x ordinates {-1,0,0,2}, plus NaN-carrying series; actions = between / in_interval over all pairs of cuts (knots, three interior points of every segment, knots +-1 ulp), split_at_x, scaled_by (negative and positive factors), shift_by, resampled_n, resampled_x, remove_nan, abs, y_crossings at every stored and mid level, bounds_at_y0, area; successor states de-duplicated by (xs, ys) rounded to 1e-9. Constructor sweep: every vector of length <= 4 over {-1,0,1,2.5,NaN,inf}, every push history of length <= 3, linear/linear_space over all bound pairs (both orders, equal) x n. distinct = distinct canonical states + constructor inputs".into();
+    cx.rule = "explicit-state search: initial states = every series over ascending (non-strict) abscissae from {0,1,1,2.5,4} (1..4 knots) x ordinates {-1,0,0,2}, plus NaN-carrying series; actions = between / in_interval over all pairs of cuts (knots, three interior points of every segment, knots +-1 ulp), split_at_x, scaled_by (negative and positive factors), shift_by, resampled_n, resampled_x, remove_nan, abs, y_crossings at every stored and mid level, bounds_at_y0, area; successor states de-duplicated by (xs, ys) rounded to 1e-9. Constructor sweep: domains and series of 31 .. 4097 knots (lookups at, one ulp around and between every knot, interpolation, slicing); every vector of length <= 4 over {-1,0,1,2.5,NaN,inf}, every push history of length <= 3, linear/linear_space over all bound pairs (both orders, equal) x n. distinct = distinct canonical states + constructor inputs".into();
     let depth = tier.pick(3, 4);
     let max_states = 3_000_000;
     cx.bounds = json!({"depth": depth, "max_states": max_states});
-    cx.require(&["non-initial state", "repeated abscissae", "single-knot series", "series with NaN ordinates", "slices judged", "splits judged", "negative x scale", "positive x scale", "level along a flat segment", "level crossing isolated points", "resampling over awkward spans", "accepted vector", "rejected vector", "push history", "descending bounds", "equal bounds", "ascending bounds"]);
+    cx.require(&["non-initial state", "repeated abscissae", "single-knot series", "series with NaN ordinates", "slices judged", "splits judged", "negative x scale", "positive x scale", "level along a flat segment", "level crossing isolated points", "resampling over awkward spans", "accepted vector", "rejected vector", "push history", "descending bounds", "equal bounds", "ascending bounds", "long domain"]);
     cx.assume("function preservation is judged on strictly ascending, NaN-free series; series with repeated abscissae are judged for validity only; along a flat segment lying on the level only 'returns, and every reported abscissa is a crossing' is judged");
     let (l, states, _e, reached, capped) = bfs_par(roots(tier), |s| s.key(), expand, depth, max_states);
     let transitions = l.transitions;
